@@ -90,7 +90,7 @@ CHECKS["C15"] = (
  "DESIGN.md §4 C15")
 CHECKS["C18"] = (
  "trace monitor over the Enter/Exit log of a recording visitor against a reflection walk of the same tree (runtime monitoring)",
- "{Q} (quick) / {T} (thorough) trees from generated programs and mutated corpus entries x three visitor policies (plus 19 programs in syntax newer than the pinned grammar, checked whenever a tree is returned): every statement/expression/binding/identifier/block position entered (exactly once per position when descending everywhere), parent before child, Exit once per non-nil Enter in stack order and delivered to the visitor object that Enter returned (children to the visitor returned for their parent), nothing entered below a node whose Enter returned nil, every pointer handed to Enter points into the tree (no copies, nothing reachable only through scope tables). Held on what was observed.",
+ "{Q} (quick) / {T} (thorough) trees from generated programs and mutated corpus entries x three visitor policies (plus 19 programs in syntax newer than the pinned grammar, checked whenever a tree is returned): every statement/expression/binding/identifier/block position and every addressable sub-structure that is a node (Element incl. holes, Property, Params, …) entered (exactly once per position when descending everywhere), parent before child, Exit once per non-nil Enter in stack order and delivered to the visitor object that Enter returned (children to the visitor returned for their parent), nothing entered below a node whose Enter returned nil, every pointer handed to Enter points into the tree (no copies, nothing reachable only through scope tables). Held on what was observed.",
  "Required positions are defined by reflection over exported fields other than Scope; Walk may additionally enter sub-structures.",
  "DESIGN.md §4 C18")
 CHECKS["C20"] = (
